@@ -49,7 +49,7 @@ multisec_regex = re.compile(
 
         ({no_num_sec_regex.pattern}     # The word or abbreviation "Section" (optional)
         (?P<plural_rightmost>s)?
-        \s*)?                           # (Whitespace after that word only if it is there.)
+        \.?\s*)?                        # (Period / whitespace after that word only if it is there.)
         (?P<secnum_rightmost>\d{{1,3}})  # Rightmost section number (1 to 3 digits)
     )*   # Will go to here for multi-sections
     (?P<colon>\s*:)?    # Capture an optional colon at end.
